@@ -212,7 +212,47 @@ KeyFileKnown ==
     /\ DSPanicKey(3) = "ds/panics:undefined-type" /\ DSPanicKey(2) = "ds/panics:sha256"
 
 -----------------------------------------------------------------------------
+\* spellings: c = <<name, spelling>>: every spelling is a text of the name, and only the library's form and the
+\* octet classes decide its length.  spread: c = <<p, k, class>>.
+SpellNames == DSNames \cup { << <<46, 92, 48, 57, 32>>, <<45, 0, 255, 127, 126, 33>> >>, << <<49, 50, 51, 52>> >> }
+EscLen(b, how) == Len(SpellOctet(b, how))
+SpellOK ==
+  kind = "spell" =>
+    LET n == c[1]  t == Spell(n, c[2])  q == Parse(t) IN
+    /\ q.st = "ok" /\ q.fq /\ q.labels = n
+    /\ Spell(n, "lib") = Present(n) /\ Spell(n, "ddd") = PresentDDD(n)
+    /\ Len(Spell(n, "ddd")) = IF n = <<>> THEN 1 ELSE 4 * (WireLen(n) - 1 - Len(n)) + Len(n)
+    /\ Len(Spell(n, "lib")) <= Len(Spell(n, "ddd")) /\ Len(Spell(n, "mix")) <= Len(Spell(n, "ddd"))
+    /\ \A b \in 0..255 : EscLen(b, "ddd") = 4 /\ EscLen(b, "esc") \in {2, 4} /\ EscLen(b, "lib") \in {1, 2, 4}
+                          /\ (EscLen(b, "esc") = 2 <=> b > 32 /\ b < 127 /\ ~IsDigit(b))
+SpreadPs == {1, 2, 5, 63, 64, 127, 250, 251}
+SpreadOKInv ==
+  kind = "spread" =>
+    LET p == c[1]  k == c[2]  n == SpreadName(p, k, c[3]) IN
+    IF SpreadOK(p, k, 0) THEN
+      /\ ValidName(n) /\ Len(n) = k /\ WireLen(n) = p + k + 1
+      /\ \A i \in 1..k : Len(n[i]) \in {p \div k, (p \div k) + 1}
+      /\ Len(Spell(n, "ddd")) = 4 * p + k
+      /\ (c[3] \in {"ctl", "high"} => \A how \in Spellings : Len(Spell(n, how)) = 4 * p + k)
+      /\ (c[3] = "lower" => Len(Spell(n, "lib")) = p + k /\ Len(Spell(n, "esc")) = 2 * p + k)
+      /\ \A how \in Spellings : Parse(Spell(n, how)).labels = n /\ (HasEscUpper(Spell(n, how), 1) => c[3] = "letters" /\ how \in {"ddd", "mix"})
+      /\ (LongText(Spell(n, "ddd")) <=> 4 * p + k > 255)
+    ELSE k > p \/ ~ValidName(n)
+SpreadKnown ==      \* the boundary the family is built for is crossed: texts of 253..257 characters for names of 65..69 octets,
+  kind = "zone" =>  \* the longest name there is has a text of 1004 characters, and ordinary names never have a long text
+    /\ { Len(Spell(SpreadName(63, k, "ctl"), "lib")) : k \in 1..5 } = 253..257
+    /\ SpreadOK(250, 4, 0) /\ ~SpreadOK(250, 5, 0) /\ ~SpreadOK(250, 3, 0) /\ ~SpreadOK(251, 4, 0)
+    /\ WireLen(SpreadName(250, 4, "high")) = 255 /\ Len(Spell(SpreadName(250, 4, "high"), "lib")) = 1004
+    /\ Len(Spell(SpreadName(250, 4, "lower"), "lib")) = 254 /\ ~LongText(Spell(SpreadName(250, 4, "lower"), "lib"))
+    /\ HashNameKey(Spell(SpreadName(80, 4, "ctl"), "lib"), FALSE) = "nsec3/hashname:text-longer-than-255"
+    /\ HashNameKey(Spell(SpreadName(62, 1, "ctl"), "lib"), FALSE) = "nsec3/hashname"
+    /\ DSDigestKey("sha1", Spell(SpreadName(64, 2, "punct"), "ddd")) = "ds/digest:sha1:text-longer-than-255"
+    /\ DSDigestKey("sha1", Spell(SpreadName(64, 2, "letters"), "ddd")) = "ds/digest:escaped-uppercase"
+
+-----------------------------------------------------------------------------
 Init ==
+  \/ kind = "spell"  /\ c \in SpellNames \X Spellings
+  \/ kind = "spread" /\ c \in SpreadPs \X (1..5) \X SpreadClasses
   \/ kind = "keytag" /\ c \in KTUniverse
   \/ kind = "cover"  /\ c \in HS \X HS \X HS \X {0, 1}
   \/ kind = "chain"  /\ c \in ((SUBSET HS) \ {{}}) \X HS
